@@ -245,9 +245,12 @@ class Loops:
         """f(data[A:B]) returned normally  =>  B - A >= min_len(f)"""
         out = []
         for x in walk_no_nested(node_expr):
-            if isinstance(x, ast.Call) and x.args and isinstance(x.args[0], ast.Subscript) \
-                    and isinstance(x.args[0].slice, ast.Slice):
-                sl = x.args[0].slice
+            a0 = x.args[0] if isinstance(x, ast.Call) and x.args else None
+            if isinstance(a0, ast.Name) and ('slice', a0.id) in env:
+                a0 = env[('slice', a0.id)]          # body = data[a:b]; f(body)
+            if isinstance(x, ast.Call) and x.args and isinstance(a0, ast.Subscript) \
+                    and isinstance(a0.slice, ast.Slice):
+                sl = a0.slice
                 if sl.upper is None or sl.step is not None:
                     continue
                 r = self.res.resolve_call(x, fi, count=False)
@@ -341,6 +344,19 @@ class Loops:
                                     progressed = True
                         else:
                             env[name] = lin(st.value, env)
+                            if isinstance(st.value, ast.Subscript) and isinstance(st.value.slice, ast.Slice):
+                                env[('slice', name)] = st.value
+                            else:
+                                env.pop(('slice', name), None)
+                    elif isinstance(st, ast.Assign) and len(st.targets) == 1 and isinstance(st.targets[0], (ast.Tuple, ast.List)) \
+                            and isinstance(st.value, (ast.Tuple, ast.List)) and len(st.value.elts) == len(st.targets[0].elts) \
+                            and all(isinstance(t_, ast.Name) for t_ in st.targets[0].elts):
+                        # a, b = x, y : elementwise (all right-hand sides are evaluated first)
+                        vals = [lin(v_, env) for v_ in st.value.elts]
+                        for t_, v_ in zip(st.targets[0].elts, vals):
+                            if t_.id != cursor:
+                                env[t_.id] = v_
+                                env.pop(('slice', t_.id), None)
                     elif isinstance(st, ast.Assign):
                         for t in st.targets:
                             for nm in ast.walk(t):
